@@ -69,7 +69,9 @@ class Reader(object):
         return s.lower()
 
     def readFile(self, filename):
-        self.read(open(filename))
+        # The files are written as UTF-8 (utils.file.AtomicFile), whatever the
+        # locale's preferred encoding is.
+        self.read(open(filename, encoding='utf8'))
 
     def read(self, fd):
         lineno = 0
